@@ -45,6 +45,8 @@ pub struct Case {
     /// corpus runs: this text (a test from tests/data/*.dig) is fed to the parser instead of
     /// the printed `program`; there is no model, only history-only oracles apply
     pub source_override: Option<String>,
+    /// corpus runs: the fixture (file name under tests/data) the test was taken from
+    pub dig_file: Option<String>,
 }
 
 impl Case {
@@ -93,6 +95,13 @@ impl Case {
                 match self.inspect {
                     None => J::Null,
                     Some((s, n, d)) => J::Arr(vec![J::i(s), J::i(n), J::i(d)]),
+                },
+            )
+            .set(
+                "dig_file",
+                match &self.dig_file {
+                    Some(s) => J::s(s.clone()),
+                    None => J::Null,
                 },
             )
             .set("max_steps", J::u(self.max_steps))
@@ -160,6 +169,10 @@ impl Case {
             continue_after_error: match j.get("continue_after_error") {
                 Some(b) => b.as_bool()?,
                 None => false,
+            },
+            dig_file: match j.get("dig_file") {
+                Some(J::Str(s)) => Some(s.clone()),
+                _ => None,
             },
             source_override: match j.get("source_override") {
                 Some(J::Str(s)) => Some(s.clone()),
